@@ -173,12 +173,14 @@ const char *fault_name(unsigned kind) {
 static int kind_index(unsigned kind) { int i = 0; while (kind > 1) { kind >>= 1; ++i; } return i; }
 
 void fault_scope(uint64_t fseed, unsigned mask) {
+  Ig ig_;
   g_fmask = mask;
   g_frng.reseed(fseed ^ 0x5eedfa17ULL);
 }
 void fault_rate(unsigned kind, unsigned permille) { g_frate[kind_index(kind)] = permille; }
 void fault_late_max_ms(long ms) { g_late_max_ms = ms; }
 void fault_fd(int fd, bool on) {
+  Ig ig_;
   if (on) { g_fault_fds->insert(fd); g_nofault_fds->erase(fd); }
   else { g_fault_fds->erase(fd); g_nofault_fds->insert(fd); }
 }
@@ -415,20 +417,24 @@ void set_step_cap(uint64_t cap) { g_step_cap = cap; }
 NoSched::NoSched() { ++t_nosched; }
 NoSched::~NoSched() { --t_nosched; }
 void set_prewait_hook(PrewaitHook h) {
+  Ig ig_;
   if (!g_hook) g_hook = new PrewaitHook();
   *g_hook = h;
   g_hook_thread = h ? t_self : nullptr;
 }
 uint64_t wait_calls() { return g_wait_calls; }
 void set_wait_entry_hook(std::function<void(int)> h) {
+  Ig ig_;
   if (!g_wait_entry_hook) g_wait_entry_hook = new std::function<void(int)>();
   *g_wait_entry_hook = h;
 }
 void set_deadlock_handler(std::function<void(const DeadlockInfo &)> h) {
+  Ig ig_;
   if (!g_deadlock_handler) g_deadlock_handler = new std::function<void(const DeadlockInfo &)>();
   *g_deadlock_handler = h;
 }
 void set_stepcap_handler(std::function<void()> h) {
+  Ig ig_;
   if (!g_stepcap_handler) g_stepcap_handler = new std::function<void()>();
   *g_stepcap_handler = h;
 }
@@ -443,11 +449,13 @@ void set_udp_redirect_observer(std::function<void(uint32_t, const void *, size_t
 }
 
 void yield() {
+  Ig ig_;
   if (passthrough()) return;
   sched_point();
 }
 
 void sleep_ns(int64_t d) {
+  Ig ig_;
   if (passthrough()) { g_now += d > 0 ? d : 0; return; }
   Thread *t = t_self;
   if (d <= 0) { sched_point(); return; }
@@ -458,6 +466,7 @@ void sleep_ns(int64_t d) {
 }
 
 void start(const Plan &plan) {
+  Ig ig_;
   if (!g_mutexes) {
     g_mutexes = new std::unordered_map<const void *, MState>();
     g_conds = new std::unordered_map<const void *, CState>();
@@ -503,6 +512,7 @@ void finish() { g_active = false; }
 static std::vector<HEvent> *g_hist;
 static long g_cells[256];
 uint64_t hist(int kind, long a, long b, long c, long d) {
+  Ig ig_;
   if (!g_hist) g_hist = new std::vector<HEvent>();
   HEvent e;
   e.seq = ++g_seq; e.tid = t_self ? t_self->id : -1; e.t_ns = g_now;
@@ -512,6 +522,7 @@ uint64_t hist(int kind, long a, long b, long c, long d) {
   return e.seq;
 }
 const std::vector<HEvent> &history() {
+  Ig ig_;
   if (!g_hist) g_hist = new std::vector<HEvent>();
   return *g_hist;
 }
@@ -534,10 +545,14 @@ int current_tid() { return t_self ? t_self->id : -1; }
 // ------------------------------------------------------------------ thread trampoline
 static void *trampoline(void *p) {
   Thread *t = static_cast<Thread *>(p);
-  t_self = t;
-  park(t);
+  {
+    Ig ig_;
+    t_self = t;
+    park(t);
+  }
   void *ret = t->fn(t->arg);
   // exit: hand over without parking
+  Ig ig_;
   t->state = T_DONE;
   --g_alive;
   if (g_active) {
@@ -610,6 +625,7 @@ extern "C" {
 
 int __wrap_pthread_create(pthread_t *pt, const pthread_attr_t *attr, void *(*fn)(void *), void *arg) {
   if (passthrough()) return __real_pthread_create(pt, attr, fn, arg);
+  Ig ig_;
   if (g_nthreads >= MAXT) { errno = EAGAIN; return EAGAIN; }
   Thread &t = g_threads[g_nthreads];
   t = Thread();
@@ -629,6 +645,7 @@ int __wrap_pthread_create(pthread_t *pt, const pthread_attr_t *attr, void *(*fn)
 
 int __wrap_pthread_join(pthread_t pt, void **ret) {
   if (passthrough()) return __real_pthread_join(pt, ret);
+  Ig ig_;
   Thread *me = t_self;
   int target = -1;
   for (int i = 0; i < g_nthreads; ++i) if (pthread_equal(g_threads[i].pt, pt)) target = i;
@@ -645,6 +662,7 @@ int __wrap_pthread_join(pthread_t pt, void **ret) {
 
 int __wrap_pthread_mutex_lock(pthread_mutex_t *m) {
   if (!g_active || t_self == nullptr) return __real_pthread_mutex_lock(m);
+  Ig ig_;
   Thread *t = t_self;
   if (t_nosched > 0) {
     MState &s = mstate(m);
@@ -659,6 +677,7 @@ int __wrap_pthread_mutex_lock(pthread_mutex_t *m) {
 
 int __wrap_pthread_mutex_trylock(pthread_mutex_t *m) {
   if (!g_active || t_self == nullptr) return __real_pthread_mutex_trylock(m);
+  Ig ig_;
   Thread *t = t_self;
   if (t_nosched == 0) sched_point();
   MState &s = mstate(m);
@@ -669,6 +688,7 @@ int __wrap_pthread_mutex_trylock(pthread_mutex_t *m) {
 
 int __wrap_pthread_mutex_unlock(pthread_mutex_t *m) {
   if (!g_active || t_self == nullptr) return __real_pthread_mutex_unlock(m);
+  Ig ig_;
   Thread *t = t_self;
   MState &s = mstate(m);
   if (s.owner == t->id) {
@@ -683,11 +703,13 @@ int __wrap_pthread_mutex_unlock(pthread_mutex_t *m) {
 
 int __wrap_pthread_cond_wait(pthread_cond_t *c, pthread_mutex_t *m) {
   if (passthrough()) return __real_pthread_cond_wait(c, m);
+  Ig ig_;
   return cond_wait_common(c, m, -1);
 }
 
 int __wrap_pthread_cond_timedwait(pthread_cond_t *c, pthread_mutex_t *m, const struct timespec *abs) {
   if (passthrough()) return __real_pthread_cond_timedwait(c, m, abs);
+  Ig ig_;
   int64_t dl = ts_to_ns(abs) - g_wall_off;   // CLOCK_REALTIME based
   if (dl < 0) dl = 0;
   return cond_wait_common(c, m, dl);
@@ -695,6 +717,7 @@ int __wrap_pthread_cond_timedwait(pthread_cond_t *c, pthread_mutex_t *m, const s
 
 int __wrap_pthread_cond_clockwait(pthread_cond_t *c, pthread_mutex_t *m, clockid_t clk, const struct timespec *abs) {
   if (passthrough()) return __real_pthread_cond_clockwait(c, m, clk, abs);
+  Ig ig_;
   int64_t dl = ts_to_ns(abs);
   if (clk == CLOCK_REALTIME) dl -= g_wall_off;
   if (dl < 0) dl = 0;
@@ -703,6 +726,7 @@ int __wrap_pthread_cond_clockwait(pthread_cond_t *c, pthread_mutex_t *m, clockid
 
 int __wrap_pthread_cond_signal(pthread_cond_t *c) {
   if (!g_active || t_self == nullptr) return __real_pthread_cond_signal(c);
+  Ig ig_;
   if (t_nosched == 0) sched_point();
   CState &cs = cstate(c);
   if (!cs.waiters.empty()) {
@@ -721,6 +745,7 @@ int __wrap_pthread_cond_signal(pthread_cond_t *c) {
 
 int __wrap_pthread_cond_broadcast(pthread_cond_t *c) {
   if (!g_active || t_self == nullptr) return __real_pthread_cond_broadcast(c);
+  Ig ig_;
   if (t_nosched == 0) sched_point();
   CState &cs = cstate(c);
   trace("T%d cond#%d broadcast -> %zu", t_self->id, cs.id, cs.waiters.size());
@@ -732,6 +757,7 @@ int __wrap_pthread_cond_broadcast(pthread_cond_t *c) {
 // ---------------------------------------------------------------- time
 int __wrap_clock_gettime(clockid_t clk, struct timespec *ts) {
   if (!g_active) return __real_clock_gettime(clk, ts);
+  Ig ig_;
   int64_t v;
   switch (clk) {
     case CLOCK_REALTIME: case CLOCK_REALTIME_COARSE: v = g_now + g_wall_off; break;
@@ -745,6 +771,7 @@ int __wrap_clock_gettime(clockid_t clk, struct timespec *ts) {
 
 int __wrap_gettimeofday(struct timeval *tv, void *tz) {
   if (!g_active) return __real_gettimeofday(tv, tz);
+  Ig ig_;
   int64_t v = g_now + g_wall_off;
   if (tv) { tv->tv_sec = v / 1000000000LL; tv->tv_usec = (v % 1000000000LL) / 1000; }
   return 0;
@@ -752,6 +779,7 @@ int __wrap_gettimeofday(struct timeval *tv, void *tz) {
 
 time_t __wrap_time(time_t *out) {
   if (!g_active) return __real_time(out);
+  Ig ig_;
   time_t v = (time_t)((g_now + g_wall_off) / 1000000000LL);
   if (out) *out = v;
   return v;
@@ -759,6 +787,7 @@ time_t __wrap_time(time_t *out) {
 
 int __wrap_nanosleep(const struct timespec *req, struct timespec *rem) {
   if (passthrough()) return __real_nanosleep(req, rem);
+  Ig ig_;
   sleep_ns(ts_to_ns(req));
   if (rem) { rem->tv_sec = 0; rem->tv_nsec = 0; }
   return 0;
@@ -766,6 +795,7 @@ int __wrap_nanosleep(const struct timespec *req, struct timespec *rem) {
 
 int __wrap_clock_nanosleep(clockid_t clk, int flags, const struct timespec *req, struct timespec *rem) {
   if (passthrough()) return __real_clock_nanosleep(clk, flags, req, rem);
+  Ig ig_;
   int64_t d = ts_to_ns(req);
   if (flags & TIMER_ABSTIME) { d -= (clk == CLOCK_REALTIME ? g_now + g_wall_off : g_now); }
   sleep_ns(d);
@@ -775,18 +805,21 @@ int __wrap_clock_nanosleep(clockid_t clk, int flags, const struct timespec *req,
 
 int __wrap_usleep(useconds_t us) {
   if (passthrough()) return __real_usleep(us);
+  Ig ig_;
   sleep_ns((int64_t)us * 1000);
   return 0;
 }
 
 unsigned __wrap_sleep(unsigned s) {
   if (passthrough()) return __real_sleep(s);
+  Ig ig_;
   sleep_ns((int64_t)s * 1000000000LL);
   return 0;
 }
 
 int __wrap_sched_yield(void) {
   if (passthrough()) return __real_sched_yield();
+  Ig ig_;
   sched_point();
   return 0;
 }
@@ -831,6 +864,7 @@ static int wait_common(int timeout_ms, Probe probe, Setup block_setup) {
 extern "C" {
 int __wrap_epoll_wait(int epfd, struct epoll_event *ev, int maxev, int timeout) {
   if (passthrough()) return __real_epoll_wait(epfd, ev, maxev, timeout);
+  Ig ig_;
   return wait_common(
       timeout,
       [&]() -> int {
@@ -847,6 +881,7 @@ int __wrap_epoll_wait(int epfd, struct epoll_event *ev, int maxev, int timeout) 
 
 int __wrap_select(int nfds, fd_set *r, fd_set *w, fd_set *e, struct timeval *tv) {
   if (passthrough()) return __real_select(nfds, r, w, e, tv);
+  Ig ig_;
   fd_set r0, w0, e0;
   if (r) r0 = *r; if (w) w0 = *w; if (e) e0 = *e;
   int timeout = tv ? (int)(tv->tv_sec * 1000 + (tv->tv_usec + 999) / 1000) : -1;
@@ -870,6 +905,7 @@ int __wrap_select(int nfds, fd_set *r, fd_set *w, fd_set *e, struct timeval *tv)
 
 int __wrap_poll(struct pollfd *fds, nfds_t n, int timeout) {
   if (passthrough()) return __real_poll(fds, n, timeout);
+  Ig ig_;
   return wait_common(
       timeout, [&]() -> int { return __real_poll(fds, n, 0); },
       [&](Thread *t) { t->io_kind = IO_POLL; t->io_pfds = fds; t->io_npfds = n; });
@@ -880,38 +916,46 @@ static size_t short_len(size_t n) { return n <= 1 ? n : 1 + (size_t)g_frng.below
 
 ssize_t __wrap_read(int fd, void *buf, size_t n) {
   if (passthrough()) return __real_read(fd, buf, n);
+  Ig ig_;
   sched_point();
   if (n > 0 && fd_fault_eligible(fd)) {
     if (fd_is_sock(fd) && fault(F_READ_EAGAIN)) { errno = EAGAIN; return -1; }
     if (n > 1 && fault(F_SHORT_READ)) n = short_len(n);
   }
+  ig_.end();
   return __real_read(fd, buf, n);
 }
 
 ssize_t __wrap_recv(int fd, void *buf, size_t n, int flags) {
   if (passthrough()) return __real_recv(fd, buf, n, flags);
+  Ig ig_;
   sched_point();
   if (n > 1 && fd_fault_eligible(fd) && fault(F_SHORT_READ)) n = short_len(n);
+  ig_.end();
   return __real_recv(fd, buf, n, flags);
 }
 
 ssize_t __wrap_write(int fd, const void *buf, size_t n) {
   if (passthrough()) return __real_write(fd, buf, n);
+  Ig ig_;
   sched_point();
   if (n > 0 && fd_fault_eligible(fd)) {
     if (fault(F_WRITE_EAGAIN)) { errno = EAGAIN; return -1; }
     if (n > 1 && fault(F_SHORT_WRITE)) n = short_len(n);
   }
+  ig_.end();
   return __real_write(fd, buf, n);
 }
 
 ssize_t __wrap_send(int fd, const void *buf, size_t n, int flags) {
   if (passthrough()) return __real_send(fd, buf, n, flags);
+  Ig ig_;
   sched_point();
   if (n > 0 && fd_fault_eligible(fd)) {
     if (fault(F_WRITE_EAGAIN)) { errno = EAGAIN; return -1; }
     if (n > 1 && fault(F_SHORT_WRITE)) n = short_len(n);
   }
+  ig_.end();
   return __real_send(fd, buf, n, flags);
 }
 
@@ -933,6 +977,7 @@ static int iov_truncate(const struct iovec *iov, int cnt, size_t keep, struct io
 
 ssize_t __wrap_readv(int fd, const struct iovec *iov, int cnt) {
   if (passthrough()) return __real_readv(fd, iov, cnt);
+  Ig ig_;
   sched_point();
   size_t total = iov_total(iov, cnt);
   if (total > 0 && cnt <= 16 && fd_fault_eligible(fd)) {
@@ -940,14 +985,17 @@ ssize_t __wrap_readv(int fd, const struct iovec *iov, int cnt) {
     if (total > 1 && fault(F_SHORT_READ)) {
       struct iovec tmp[16];
       int k = iov_truncate(iov, cnt, short_len(total), tmp);
+      ig_.end();
       return __real_readv(fd, tmp, k);
     }
   }
+  ig_.end();
   return __real_readv(fd, iov, cnt);
 }
 
 ssize_t __wrap_writev(int fd, const struct iovec *iov, int cnt) {
   if (passthrough()) return __real_writev(fd, iov, cnt);
+  Ig ig_;
   sched_point();
   size_t total = iov_total(iov, cnt);
   if (total > 0 && cnt <= 16 && fd_fault_eligible(fd)) {
@@ -955,43 +1003,53 @@ ssize_t __wrap_writev(int fd, const struct iovec *iov, int cnt) {
     if (total > 1 && fault(F_SHORT_WRITE)) {
       struct iovec tmp[16];
       int k = iov_truncate(iov, cnt, short_len(total), tmp);
+      ig_.end();
       return __real_writev(fd, tmp, k);
     }
   }
+  ig_.end();
   return __real_writev(fd, iov, cnt);
 }
 
 ssize_t __wrap_sendto(int fd, const void *buf, size_t n, int flags, const struct sockaddr *a, socklen_t l) {
   if (passthrough()) return __real_sendto(fd, buf, n, flags, a, l);
+  Ig ig_;
   sched_point();
   if (a && a->sa_family == AF_INET && g_udp_port >= 0) {
     const struct sockaddr_in *in = reinterpret_cast<const struct sockaddr_in *>(a);
     if (ntohs(in->sin_port) == g_udp_port) {
       if (g_udp_obs && *g_udp_obs) { NoSched ns; (*g_udp_obs)(ntohl(in->sin_addr.s_addr), buf, n); }
+      ig_.end();
       return __real_sendto(fd, buf, n, flags, reinterpret_cast<const struct sockaddr *>(&g_udp_to), g_udp_to_len);
     }
   }
+  ig_.end();
   return __real_sendto(fd, buf, n, flags, a, l);
 }
 
 ssize_t __wrap_recvfrom(int fd, void *buf, size_t n, int flags, struct sockaddr *a, socklen_t *l) {
   if (passthrough()) return __real_recvfrom(fd, buf, n, flags, a, l);
+  Ig ig_;
   sched_point();
+  ig_.end();
   return __real_recvfrom(fd, buf, n, flags, a, l);
 }
 
 int __wrap_accept(int fd, struct sockaddr *a, socklen_t *l) {
   if (passthrough()) return __real_accept(fd, a, l);
+  Ig ig_;
   sched_point();
   return __real_accept(fd, a, l);
 }
 int __wrap_accept4(int fd, struct sockaddr *a, socklen_t *l, int flags) {
   if (passthrough()) return __real_accept4(fd, a, l, flags);
+  Ig ig_;
   sched_point();
   return __real_accept4(fd, a, l, flags);
 }
 int __wrap_connect(int fd, const struct sockaddr *a, socklen_t l) {
   if (passthrough()) return __real_connect(fd, a, l);
+  Ig ig_;
   sched_point();
   return __real_connect(fd, a, l);
 }
